@@ -194,6 +194,9 @@ func init() {
 			{Scenario: "prog/N=2/k=3/H=2s/adaptive", Budgets: bs(B(0, 2)), Split: 1},
 			{Scenario: "prog/N=2/k=2/R=200ms", Budgets: bs(B(0, 2)), Split: 1},
 			{Scenario: "prog/N=2/k=3/ka=2s,1s", Budgets: bs(B(0, 1)), Split: 1},
+			// keepalive pings (which consume sequence numbers) during an idle
+			// gap between two bursts, ping interval below the resend timeout
+			{Scenario: "burst2/N=2/k=2", Budgets: bs(B(0, 2)), Split: 1},
 			{Scenario: "prog/N=1/k=3", Budgets: bs(B(1, 1), B(0, 3)), Split: 1},
 			{Scenario: "prog/N=2/k=4", Budgets: bs(B(1, 1), B(0, 2)), Split: 1},
 			{Scenario: "prog/kind=bidi/N=2/k=2", Budgets: bs(B(1, 1), B(0, 2)), Split: 1},
